@@ -60,6 +60,8 @@ PENDING = {
     "taproot.output_pubkey/hybrid-key",
     "dsa.verify_/hybrid-key",
     "dsa.assert_as_valid_/hybrid-key",
+    "dsa.sign_/hybrid-key",
+    "dsa.sign/hybrid-key",
     "dh.diffie_hellman/point-infinity",
     "dh.diffie_hellman/point-infinity-alias",
 }
@@ -145,6 +147,8 @@ def twin(ctx: Ctx, op: Op) -> Obs | None:
     ctx.log("twin", op.site, op.note, obs[True].tag, obs[False].tag)
     ctx.state(f"{op.api}:{obs[True].tag[:3]}")
     ctx.probe(("answered:" if obs[True].tag.startswith("ok") else "refused:") + op.api)
+    if obs[True].value is True or (obs[True].tag.startswith("ok") and op.api.startswith("engine.")):
+        ctx.probe("accepted:" + op.api)
     same = obs[True].tag == obs[False].tag
     for kind, sites in (("pending", PENDING), ("probe-only", PROBE_ONLY)):
         if op.site in sites:
@@ -255,7 +259,7 @@ def g_dsa_sign(ctx: Ctx) -> Op:
     if kind == "sign_recoverable_":
         lower = not ch.chance(1, 4, "dsa.highs")
         return Op("dsa.sign_recoverable_", cls, lambda: dsa.sign_recoverable_(m, q, None, lower), note=f"lower_s={lower}")
-    extra = ch.weighted([("plain", 5), ("nonce", 1), ("high-s-allowed", 1), ("commit", 1), ("pub_key", 1), ("wrong-pub_key", 1)], "dsa.extra")
+    extra = ch.weighted([("plain", 5), ("nonce", 1), ("high-s-allowed", 1), ("commit", 1), ("pub_key", 2), ("hostile-pub_key", 2)], "dsa.extra")
     if extra == "nonce":
         opts["nonce"] = H.uniform_scalar(ch, "dsa.nonce")
     elif extra == "high-s-allowed":
@@ -263,10 +267,11 @@ def g_dsa_sign(ctx: Ctx) -> Op:
     elif extra == "commit":
         opts["commit_hash" if kind == "sign_" else "commit"] = ch.nbytes(32, "dsa.commit")
     elif extra == "pub_key" and cls == "valid":
-        opts["pub_key"] = H.sec(H.mult(q), not ch.draw(2, "dsa.pk.uncompressed"))
-    elif extra == "wrong-pub_key":
-        opts["pub_key"] = H.sec(H.mult(H.uniform_scalar(ch, "dsa.other")))
-        cls = _cls(cls, "pub_key-of-another-key")
+        another = ch.draw(4, "dsa.pk.another") == 0
+        _, opts["pub_key"] = H.pub_key(ch, "dsa.pk", q % (N - 1) + 1 if another else q, False)
+        cls = "pub_key-of-another-key" if another else cls
+    elif extra == "hostile-pub_key" and cls == "valid":
+        cls, opts["pub_key"] = H.pub_key(ch, "dsa.pk", q, True)
     return Op(f"dsa.{kind}", cls, lambda: getattr(dsa, kind)(m, q, **opts), note=f"{extra} {sorted(opts)}")
 
 
@@ -474,17 +479,13 @@ def g_taproot(ctx: Ctx) -> Op:
         qc, k = H.scalar(ch, "tr.prv", ch.chance(1, 2, "tr.hostile?"))
         return Op("taproot.output_prvkey", qc, lambda: taproot.output_prvkey(k, tree), note=f"tree{ti}")
     if kind == "output_pubkey":
-        d = H.hostile_dim(ch, "tr.pk", 2)
-        if d == 1 or (d == -1 and ch.draw(2, "tr.xonly")):
-            kc, key = H.xonly_key(ch, "tr.xkey", q, d == 1, forms=("bytes", "hex"))
-        else:
-            kc, key = H.pub_key(ch, "tr.key", q, d == 0)
-        if d == -1 and ti and ch.draw(4, "tr.nokey") == 0:
-            key = None
+        kc, key = H.pub_key(ch, "tr.key", q, ch.chance(1, 2, "tr.hostile?"))
+        if kc == "valid" and ch.draw(4, "tr.other-form") == 0:
+            key = q if ti == 0 or ch.draw(2, "tr.nokey") else None  # a private key names its public one; no key is BIP341's NUMS point
         return Op("taproot.output_pubkey", kc, lambda: taproot.output_pubkey(key, tree), note=f"tree{ti}")
     tree = _TREES[2]
     X = H.b32(H.mult(q)[0])
-    out, parity = need(ctx, Op("taproot.output_pubkey", "valid", lambda: taproot.output_pubkey(X, tree)))
+    out, parity = need(ctx, Op("taproot.output_pubkey", "valid", lambda: taproot.output_pubkey(b"\x02" + X, tree)))
     (leaf_version, script), path = taproot.tree_helper(tree)[0][0]
     script_bytes = taproot.serialize(script)
     control = bytes([leaf_version | parity]) + X + path
@@ -648,6 +649,8 @@ def g_silent(ctx: Ctx) -> Op:
         only_tx = ["odd-y-taproot-input-key", "input-keys-sum-to-infinity", "no-outpoints", "no-inputs", "input-key-off-curve", "input-key-hybrid",
                    "input-key-sec-octets", "scan-key-zero", "scan-key-n", "spend-key-infinity", "spend-key-off-curve"]
         cls = ch.pick(common + (only_tx if kind == "scan_transaction_outputs" else []), "sp.scan.cls")
+        if kind == "scan_transaction_outputs" and ch.chance(1, 4, "sp.scan.taproot-parity"):
+            cls = "odd-y-taproot-input-key"
         Q0 = even[0][0]
         not_an_x = ch.pick([H.off_curve_x(ch, "sp.x"), H.P + ch.draw(977, "sp.p"), 2**256 - 1, 0, 5], "sp.not-an-x")  # unspendable: no such point
         extra = {"off-curve-taproot-output": H.b32(not_an_x),
@@ -715,7 +718,7 @@ def g_engine(ctx: Ctx) -> Op:
     hostile = ch.chance(2, 3, "eng.hostile?")
     cls = "valid"
     if kind == "p2tr":
-        out, _ = need(ctx, Op("taproot.output_pubkey", "valid", lambda: taproot.output_pubkey(H.b32(Q[0]), None)))
+        out, _ = need(ctx, Op("taproot.output_pubkey", "valid", lambda: taproot.output_pubkey(H.sec(Q), None)))
         d = need(ctx, Op("taproot.output_prvkey", "valid", lambda: taproot.output_prvkey(q, None)))
         spk = b"\x51\x20" + out
         ht = ch.pick([0, 1, 3, 0x81, 2], "eng.ht")
